@@ -144,6 +144,37 @@ func randomScenario(rnd *rand.Rand) *scenario {
 		sc.MaxB = []int{0, 0, 1, 2}[rnd.Intn(4)]
 	}
 	sc.Cool = []int{0, 100}[rnd.Intn(2)]
+	if rnd.Intn(3) == 0 {
+		// reservation-centred layout: ONE permissive pool of small blocks, 2-3 reservations that each cover only
+		// PART of a different block (single addresses and /31s, first / last / middle of the block), listed in a
+		// random order, and (see randomOp) mostly multi-address requests, so that one request examines a partly
+		// reserved block and then spills into the next one
+		p := poolMenu[[]int{0, 0, 1, 2}[rnd.Intn(4)]]
+		p.Uses = []string{"Workload", "Tunnel"}
+		sc.Pools, sc.Rsv, sc.MaxB, sc.Cool = []pool{p}, nil, 0, 0
+		sc.Strict = rnd.Intn(4) == 0
+		base := strings.TrimSuffix(strings.Split(p.CIDR, "/")[0], ".0")
+		sz := 1 << (32 - p.BlockSz)
+		nblocks := (1 << (32 - 28)) / sz
+		if p.CIDR == "10.0.2.0/29" {
+			nblocks = 8 / sz
+		}
+		blocks := rnd.Perm(nblocks)
+		for i := 0; i < 2+rnd.Intn(2) && i < nblocks; i++ {
+			b := blocks[i] * sz
+			switch k := rnd.Intn(4); {
+			case k == 0 || sz == 2:
+				sc.Rsv = append(sc.Rsv, fmt.Sprintf("%s.%d/32", base, b+rnd.Intn(sz))) // any single address
+			case k == 1:
+				sc.Rsv = append(sc.Rsv, fmt.Sprintf("%s.%d/32", base, b)) // first address of the block
+			case k == 2:
+				sc.Rsv = append(sc.Rsv, fmt.Sprintf("%s.%d/32", base, b+sz-1)) // last address of the block
+			default:
+				sc.Rsv = append(sc.Rsv, fmt.Sprintf("%s.%d/31", base, b+2*rnd.Intn(sz/2))) // half of a /30, a quarter of a /29
+			}
+		}
+		sc.SpillHeavy = true
+	}
 	return sc
 }
 
@@ -181,7 +212,7 @@ func (d *drv) randomOp(rnd *rand.Rand, host string, capsSeen *[]capRec) (map[str
 	switch {
 	case x < 50:
 		op := map[string]any{"op": "assign", "host": host, "h": handleIDs[rnd.Intn(len(handleIDs))],
-			"num": []int{1, 1, 1, 2, 2, 3, 5}[rnd.Intn(7)], "use": []string{"Workload", "Workload", "Workload", "Workload", "Tunnel"}[rnd.Intn(5)],
+			"num": map[bool][]int{false: {1, 1, 1, 2, 2, 3, 5}, true: {1, 2, 3, 3, 4, 5, 6}}[sc.SpillHeavy][rnd.Intn(7)], "use": []string{"Workload", "Workload", "Workload", "Workload", "Tunnel"}[rnd.Intn(5)],
 			"ns": []string{"", "nsx", "nsy"}[rnd.Intn(3)], "maxb": []int{0, 0, 0, 0, 1, 2}[rnd.Intn(6)], "pools": []any{}}
 		if rnd.Intn(20) == 0 {
 			op["pools"] = []any{sc.Pools[rnd.Intn(len(sc.Pools))].CIDR}
